@@ -163,6 +163,7 @@ func (s *h) Observe() *seqmc.Fail {
 func main() {
 	ev.GuardFor("C11")
 	r := ev.Start("C11")
+	defer r.FinishOnPanic()
 	u := ev.Pick(r, 4, 5)
 	res := seqmc.Explore(r, seqmc.Config{Name: "bimap", New: func() seqmc.Sys {
 		return &h{u: u, b: &maps.Bimap[int, int]{}, model: map[int]int{}}
